@@ -234,6 +234,13 @@ def _walks_parent_chain(loop) -> bool:
     return False
 
 
+def run_extra(ctx: Ctx):
+    # ---------------------------------------------------------------- R05.9 answers never come from state that outlives the question
+    from .common import process_state_rule
+    process_state_rule(ctx, "R05.9", [ctx.repo.func("Project.schedule"), ctx.repo.func("ProjectFileParser.parse")],
+                       "a limit or its counters are answered from another scenario's or project's")
+
+
 def run(ctx: Ctx):
     repo = ctx.repo
     avail = repo.func("ResourceScenario.available")
